@@ -1,4 +1,4 @@
-import Mq.Packet
+import Mq.Fill
 /-!
 # Mq.Stream — `io.Reader` delivery scripts, `io.ReadFull`, `ReadPacket`, `WriteTo`
 
@@ -119,9 +119,10 @@ def Writer.write (w : Writer) (bs : Bytes) : Nat × Option Err :=
   let n := match w.accept with | none => bs.length | some k => min k bs.length
   (n, w.err.map fun t => .io (.custom t))
 
-/-- `p.WriteTo(w)` -/
+/-- `p.WriteTo(w)`: `b := make([]byte, p.fill(_LEN, 0)); p.fill(b, 0); n, err := w.Write(b); return int64(n), err`
+— exactly one `Write` with the buffer the two-pass encoder produced (`Packet.encodeG`) -/
 def writeTo (p : Packet) (w : Writer) : WriteRes :=
-  match p.encode with
+  match p.encodeG with
   | .bytes b => let (n, e) := w.write b; { calls := [b], n := n, err := e }
   | .refuse => { calls := [], n := 0, err := some .cannotWrite }
   | .panic => { calls := [], n := 0, err := none, panicked := true }
